@@ -211,6 +211,7 @@ def gen_cases(tier, seed):
         cases.append(dict(fam="native-seed", k=k_, seed=seed))
     for (m_, n_) in ((2, 2), (2, 3), (3, 3)):
         add("upgrad", "illcond", m_, n_, 1, "mild")
+    cases.append(dict(fam="bufreuse", seed=seed))  # one instance, one matrix buffer re-scaled / re-filled in place (mc/bufreuse.py)
     return cases
 
 
@@ -585,6 +586,18 @@ class _Counter(dict):
 
 
 def run_case(case):
+    if case["fam"] == "bufreuse":
+        import torch
+        from torchjd import aggregation as T
+
+        from mc import bufreuse
+
+        pv = lambda dt: torch.tensor([1.0, 2.0, 3.0], dtype=dt) / 6  # noqa: E731
+        r = bufreuse.run({"Mean": lambda dt: T.Mean(), "Sum": lambda dt: T.Sum(), "Constant": lambda dt: T.Constant(pv(dt)), "ConFIG": lambda dt: T.ConFIG(),
+                          "ConFIG|p": lambda dt: T.ConFIG(pref_vector=pv(dt)), "PCGrad": lambda dt: T.PCGrad(), "Random": lambda dt: T.Random(), "UPGrad": lambda dt: T.UPGrad()},
+                         seeded=("PCGrad", "Random"))
+        r.update(dropped=0, maxima={}, counters={}, margin=0.0)
+        return r
     res = dict(viol=[], execs=0, outcomes=set(), nontrivial=0, dropped=0, maxima={}, counters=_Counter())
     fam = case["fam"]
     if fam == "exact":
